@@ -121,6 +121,11 @@ func main() {
 			rs.Tier = "quick"
 		}
 		emit(map[string]any{"begin": rs.Run})
+		sim.OnCut = func(res *sim.Result) {
+			emit(map[string]any{"result": res})
+			w.Flush()
+			os.Exit(0)
+		}
 		res := sim.Execute(sc, rs.Seed, rs.Run, rs.Tier, rs.Suppress, *trace)
 		emit(map[string]any{"result": res})
 		return
@@ -162,12 +167,20 @@ func main() {
 	done := 0
 	next := *from
 	exit := 0
-	for i := *from; i < *to; i += *stride {
-		if *budget > 0 && time.Since(start).Seconds() > *budget {
-			break
-		}
-		emit(map[string]any{"begin": i})
-		res := sim.Execute(sc, *seed, i, *tier, nil, int64(i) == *tracerun)
+	var cur uint64
+	// account records one finished (or cut) run; it reports whether the batch must stop
+	var account func(res *sim.Result) bool
+	sim.OnCut = func(res *sim.Result) {
+		// the run showed a violation and then never finished: report it, end this process
+		// (its goroutines cannot be stopped) and let the orchestrator continue after it
+		account(res)
+		agg.WallS = time.Since(start).Seconds()
+		emit(map[string]any{"summary": agg, "next": cur + *stride})
+		w.Flush()
+		os.Exit(3)
+	}
+	account = func(res *sim.Result) bool {
+		i := cur
 		if int64(i) == *tracerun {
 			emit(map[string]any{"trace": res.Tail, "i": i, "hash": res.Hash})
 		}
@@ -193,13 +206,24 @@ func main() {
 			if !allKnown {
 				nviol++
 				if nviol >= *maxViol {
-					break
+					return true
 				}
 			}
 		}
 		if res.Deadlock != "" || (*recycle > 0 && done >= *recycle) {
 			// goroutines of that run stay parked in this process: ask for a fresh one
 			exit = 3
+			return true
+		}
+		return false
+	}
+	for i := *from; i < *to; i += *stride {
+		if *budget > 0 && time.Since(start).Seconds() > *budget {
+			break
+		}
+		emit(map[string]any{"begin": i})
+		cur = i
+		if account(sim.Execute(sc, *seed, i, *tier, nil, int64(i) == *tracerun)) {
 			break
 		}
 	}
